@@ -738,7 +738,16 @@ pub fn gen_history(seed: u64, class: Class, max_steps: usize) -> (History, Swarm
                         batch.push(Op::ExecDAlias { layer, from, to, hard: g.r.bool() });
                         batch.push(Op::WriteExecD { layer, progs: again });
                     } else {
+                        let first_source = progs.first().map(|pr| pr.source);
                         batch.push(Op::WriteExecD { layer, progs });
+                        // afterwards the buildpack regenerates a source file in place: what was
+                        // installed into the layer must not change with it
+                        if let Some(idx) = first_source.filter(|i| *i < EXECD_SOURCES && g.r.chance(1, 3)) {
+                            batch.push(Op::RewriteSource {
+                                idx,
+                                data: gen_bytes(&mut g.r, false),
+                            });
+                        }
                     }
                 }
                 K_FILE => {
@@ -751,6 +760,8 @@ pub fn gen_history(seed: u64, class: Class, max_steps: usize) -> (History, Swarm
                         }
                         // a stray file where the exec.d directory would be
                         2 => file.path = b"exec.d".to_vec(),
+                        // ... or where an env directory would be
+                        3 => file.path = g.r.pick(&["env", "env.build", "env.launch"]).as_bytes().to_vec(),
                         _ => {}
                     }
                     let stray_execd = file.path == b"exec.d";
@@ -759,6 +770,12 @@ pub fn gen_history(seed: u64, class: Class, max_steps: usize) -> (History, Swarm
                         // ... and the next thing is a program set written next to it (mostly empty)
                         let progs = if g.r.chance(2, 3) { Vec::new() } else { gen_execd(&mut g.r, false) };
                         batch.push(Op::WriteExecD { layer, progs });
+                    }
+                    if g.r.chance(1, 12) {
+                        batch.push(Op::ChmodToml {
+                            layer,
+                            mode: *g.r.pick(&[0o600, 0o664, 0o444, 0o640]),
+                        });
                     }
                     if g.r.chance(1, 12) {
                         batch.push(Op::ChmodLayer {
@@ -795,6 +812,7 @@ pub fn gen_history(seed: u64, class: Class, max_steps: usize) -> (History, Swarm
                         batch.push(Op::TopSymlink {
                             layer,
                             abs: g.r.bool(),
+                            sibling: g.r.chance(1, 3),
                         });
                     } else {
                         for _ in 0..1 + g.r.usize(2) {
